@@ -1,3 +1,6 @@
 import RFV.Model.Arith
 import RFV.Model.Plan
 import RFV.Model.Avx
+import RFV.Model.Validate
+import RFV.Model.Sem
+import RFV.Model.Fp
